@@ -21,6 +21,39 @@ EXPLANATION = (
 DIAG_CALLS = ("debug.write", "debug.dump", "debug.str", "debug.repr", "debug.dump_error", "debug.dump_stack")
 
 
+def inline_fail(R, ro, hier, rule):
+    """A plain future computed inline by the drain: when its _compute() raises, the future leaves the arm *computed* (with that
+    error), so that the tasks awaiting it get the exception at their yield - an uncomputed future popped from the stack would
+    block its awaiting task for good."""
+    drain = ro.drain_method()
+    dcfg = cfg_of(drain)
+    sf = "self." + ro.stack_field()
+    for n, c in kit.call_sites(drain, lambda c: q.attr_call(c)[1] == "_compute"):
+        recv = q.src(q.attr_call(c)[0])
+        hs = [h for t in kit.enclosing_try_handlers(c)[:1] for h in t.handlers if kit.handler_covers(h, "Exception", hier)]
+        if not hs:
+            continue        # reported by ESCAPE
+        for h in hs:
+            hn = kit.one(dcfg.nodes_for(h), "handler node")
+            fails = [x for x, cc in kit.call_sites(drain, lambda cc: q.attr_call(cc)[1] == "set_error" and q.src(q.attr_call(cc)[0]) == recv
+                                                   and cc.args and isinstance(cc.args[0], ast.Name) and cc.args[0].id == h.name)]
+            pops = [x for x, cc in kit.call_sites(drain, lambda cc: q.src(cc.func) == sf + ".pop")]
+
+            def computed(nd):
+                if nd.kind != "test":
+                    return None
+                k, s, pos = q.atom_test(nd.ast)
+                if k == "call" and s == recv + ".is_computed":
+                    return "T" if pos else "F"
+                return None
+            p = dcfg.find_path([hn], pops + [dcfg.exit], N, cut_nodes=fails,
+                               keep_edge=lambda e: not (computed(dcfg.nodes[e.src]) is not None and e.label == computed(dcfg.nodes[e.src])))
+            R.check(p is None, rule, drain.qualname + ":inline-fail", R.site(drain, h),
+                    "a plain future whose _compute() raised is completed with that exception before it leaves the stack",
+                    "a plain future whose _compute() raised can leave the stack uncomputed: the exception is lost and the awaiting task stays blocked",
+                    dcfg.fmt_path(p) if p else None)
+
+
 def run(R):
     R.extra["explanation"] = EXPLANATION
     ro = Roles(R)
@@ -165,6 +198,7 @@ def run(R):
                 "a failing value provider leaves the future without the error (or with a different object)")
     # ---- ESCAPE
     common.escape_rule(R, ro, "C02.ESCAPE", ("step", "provider", "flush"), "delivered at the awaiting task's yield")
+    inline_fail(R, ro, hier, "C02.ESCAPE")
     capture_guard(R, ro, "C02.CAPTURE-GUARD")
     R.require_min("C02.FLOW-THROW", 3)
     R.require_min("C02.ESCAPE", 3)
